@@ -118,6 +118,11 @@ where
             return Ok(());
         }
 
+        // A build time that is not a number would never be exceeded: construction would not return.
+        if self.timeout.is_nan() {
+            return Err(PlanningError::InvalidParameter);
+        }
+
         let mut rng = self
             .rng
             .take()
